@@ -50,3 +50,11 @@ check('C17', 'Kani/CBMC proofs that chrono\'s compiled calendar accessors equal 
 for e in ENGINES:
     if e['name'] in ('msym', 'native-driver'):
         e['serves_properties'] = sorted(set(e['serves_properties']) | {'C17'})
+
+check('C07', 'symbolic execution of the MIR of the four conversions (SemVer/PEP440 <-> Zerv) on canonical-shape records with symbolic numbers; z3 decides round-trip identity and field equality per path',
+      'Canonical-shape SemVer records (every combination of epoch/pre-release/post/dev parts and build ids) and PEP 440 records with <= 3 release numbers are built with symbolic numbers (all small, or one designated number per position ranging over digit-length classes of the whole u64/u32 range, split at 2^32) and pushed through the real to_zerv_with_schema / From<Zerv> MIR including schema validation. z3 decides per path: SemVer->Zerv->SemVer prints the same version, ->PEP440 has exactly the stated fields (u32 range), PEP440->SemVer->PEP440 is equal under the real cmp/eq, the SemVer rendering is a fixed point, and no number above u32 is silently replaced. Models are replayed natively.',
+      'trusted: python models of Vec/Option/String/IndexMap/parse/to_string; z3. Numeric domain is class-based (stated in bounds), build/local identifiers <= 2. Known finding recorded: numbers > u32 dropped/moved by the infallible From<Zerv> for PEP440.',
+      'DESIGN.md §7 C07')
+for e in ENGINES:
+    if e['name'] in ('msym', 'native-driver'):
+        e['serves_properties'] = sorted(set(e['serves_properties']) | {'C07'})
